@@ -79,9 +79,63 @@ func sleepUntil(d time.Duration) {
 	vmc.Await("until "+d.String(), func() bool { return vmc.NowNS() >= int64(d) })
 }
 
+// late: the peer is unreachable for a chosen number of attempts (longer than the dial timeout
+// in total), then reachable again: the endpoint must connect at that attempt.
+func (e *exec) late() {
+	p := e.p
+	nfail := 2 + vmc.Choose(7, "failed-attempts") // 2..8 failures = 4..16 s of outage (dial timeout 7 s)
+	ok := &vnet.FakeConn{Name: "conn-late"}
+	var conns []*vnet.FakeConn
+	for i := 0; i < nfail; i++ {
+		conns = append(conns, nil)
+	}
+	conns = append(conns, ok)
+	n := &gomavlib.Node{Dialect: sx.Dialect(), OutVersion: gomavlib.V2, OutSystemID: 10, HeartbeatDisable: true,
+		IdleTimeout: 500 * time.Second, ReadTimeout: 7 * time.Second}
+	var attempts *[]time.Duration
+	switch p.Kind {
+	case "serial":
+		ss := &sx.SerialScript{Conns: append([]*vnet.FakeConn{{Name: "probe"}}, conns...)}
+		ss.Install()
+		attempts = &ss.Attempts
+		n.Endpoints = []gomavlib.EndpointConf{gomavlib.EndpointSerial{Device: "/dev/ttyFAKE", Baud: 57600}}
+	case "tcpclient":
+		ds := &sx.DialScript{Results: conns}
+		ds.Install()
+		attempts = &ds.Attempts
+		n.Endpoints = []gomavlib.EndpointConf{gomavlib.EndpointTCPClient{Address: "1.2.3.4:5600"}}
+	case "udpclient":
+		ds := &sx.DialScript{Results: conns}
+		ds.Install()
+		attempts = &ds.Attempts
+		n.Endpoints = []gomavlib.EndpointConf{gomavlib.EndpointUDPClient{Address: "1.2.3.4:5600"}}
+	}
+	if err := n.Initialize(); err != nil {
+		e.fail("Initialize: %v", err)
+		return
+	}
+	vmc.GoApp("consumer", func() { e.consume(n) })
+	sleepUntil(time.Duration(2*nfail+6) * time.Second)
+	opened := false
+	for _, ev := range e.evs {
+		if ev.what == "open" {
+			opened = true
+			if want := time.Duration(2*nfail) * time.Second; ev.at < want {
+				e.fail("channel opened at %v although the peer was unreachable until %v", ev.at, want)
+			}
+		}
+	}
+	if !opened || !ok.Handed {
+		e.fail("the peer became reachable again after %d failed attempts (%v) but the endpoint did not connect within 6 more seconds (attempts at %v)", nfail, time.Duration(2*nfail)*time.Second, *attempts)
+	}
+	n.Close()
+}
+
 func (e *exec) Body() {
 	sx.ResetGlobals()
 	switch e.p.Scen {
+	case "late":
+		e.late()
 	case "reconn":
 		e.reconn()
 	case "server":
@@ -532,6 +586,9 @@ func variants(thorough bool) []sx.Variant {
 	for _, k := range []string{"serial", "tcpclient", "udpclient"} {
 		ps = append(ps, params{Scen: "reconn", Kind: k})
 	}
+	for _, k := range []string{"serial", "tcpclient", "udpclient"} {
+		ps = append(ps, params{Scen: "late", Kind: k})
+	}
 	for _, k := range []string{"tcpserver", "udpserver"} {
 		ps = append(ps, params{Scen: "server", Kind: k})
 	}
@@ -544,7 +601,7 @@ func variants(thorough bool) []sx.Variant {
 		p := p
 		bound := 0
 		switch p.Scen {
-		case "idle":
+		case "idle", "late":
 			bound = 2
 		case "server":
 			bound = 1
